@@ -13,7 +13,10 @@ RULE = _base.SPACE_TEXT + (
     "(exact when flat, bounded when nested) with the timeout verdict "
     "(False/TimeoutError, failed_time_out) unless a completion ties with E; "
     "earlier finishers keep results. non-trivial = the run was still in its "
-    "main phase at E")
+    "main phase at E; plus the twin relation: when every non-forever job of "
+    "the scheduler finishes strictly before E in all behaviours of the twin "
+    "without the timeout, the two twins have the same set of timed "
+    "behaviours over all tie schedules")
 globals().update(_base.std(monitors.c08))
 
 JOB = {'dur': [0, 2, 3, 'never'], 'cdelay': [1], 'sd': [1, 3],
@@ -52,3 +55,145 @@ def items(tier, seed):
                                        'cdelay': [1]},
                              top_open={}, nest_open={'critical': [True]},
                              k=2 if th else 1, bound=2)
+
+
+# ---------------------------------------------------------------- the twin
+# "If all its non-forever jobs finish strictly before T the timeout has no
+# effect": compare, as sets over ALL tie schedules, the timed behaviours of X
+# (timeout T on scheduler S) and of X' (same, timeout removed), whenever in
+# every behaviour of X' the last non-forever job of S finishes strictly
+# before begin(S)+T.
+from .. import rel, mc, gen, explore as X                   # noqa: E402
+
+CAP = 1500
+_std_run_item = run_item                                     # noqa: F821
+_std_replay = replay                                         # noqa: F821
+_std_describe = describe                                     # noqa: F821
+
+
+def timed_scheds(scn):
+    return [n['name'] for n, _ in gen.walk(scn['tree'])
+            if gen.is_sched(n) and n.get('timeout') is not None]
+
+
+def compare_twin(scn, stats):
+    """-> None (not applicable / capped) or (violations, nbehaviours)"""
+    ts = timed_scheds(scn)
+    if len(ts) != 1:
+        return None
+    s = ts[0]
+    node = gen.nodes_of(scn)[s]
+    T = node['timeout']
+    regular = [k['name'] for k in node['nodes'] if not k.get('forever')]
+    if not regular:
+        return None
+    twin = gen.apply_mods(scn, [(s, 'timeout', None)])
+    if not gen.admissible(twin):
+        return None
+    B2, cap2, _ = rel.behaviours(twin, CAP, stats)
+    if cap2:
+        return 'capped'
+    for beh in B2:
+        rows = {r[0]: r for r in beh}
+        if rows[s][1] is None:
+            return None                     # S never began in some behaviour
+        E = rows[s][1] + T
+        for k in regular:
+            r = rows[k]
+            if r[2] not in ('end', 'raise', 'run_end', 'run_raise') \
+                    or r[3] >= E:
+                return None                 # not "strictly before T"
+    B1, cap1, _ = rel.behaviours(scn, CAP, stats)
+    if cap1:
+        return 'capped'
+    if set(B1) == set(B2):
+        return [], len(B1)
+    only1 = [b for b in B1 if b not in B2]
+    only2 = [b for b in B2 if b not in B1]
+    if only1:
+        side, beh, wit, other = 'with timeout', only1[0], B1[only1[0]], B2
+    else:
+        side, beh, wit, other = 'without timeout', only2[0], B2[only2[0]], B1
+    return [{
+        'key': 'c08:timeout-has-effect',
+        'msg': "all non-forever jobs of %s finish strictly before its timeout "
+               "%s, yet the timeout changes the run: a behaviour of the twin "
+               "%s has no counterpart; closest difference %s | scenario %s"
+               % (s, T, side, rel.closest(beh, other), gen.short(scn)),
+        'replay': {'engine': 'mc-rel', 'scenario': scn,
+                   'scenario_short': gen.short(scn), 'witness_side': side,
+                   'witness_choices': wit}}], len(B1)
+
+
+def run_item(item):
+    if item.get('kind') != 'twin':
+        return _std_run_item(item)
+    res = mc.new_result(None)
+    res['groups'] = 0
+    stats = X.Stats()
+    for scn in spaces.expand(item):
+        r = compare_twin(scn, stats)
+        if r is None:
+            continue
+        res['scenarios'] += 2
+        if r == 'capped':
+            res['capped'] += 1
+            continue
+        viols, n = r
+        res['groups'] += 1
+        res['nontrivial'] += 1
+        res['outcomes'] += n
+        if viols and len(res['violations']) < 4:
+            res['violations'].extend(viols)
+    res['execs'] = stats.execs
+    res['states'] = stats.points
+    res['trans'] = stats.trans
+    res['replay_checked'] = stats.replay_checked
+    res['max_tie'] = stats.max_tie
+    res['exhausted_scenarios'] = res['scenarios'] - 2 * res['capped']
+    return res
+
+
+def replay(rep):
+    if rep.get('engine') == 'mc':
+        return _std_replay(rep)
+    r = compare_twin(rep['scenario'], X.Stats())
+    return sorted(v['msg'] for v in r[0]) if isinstance(r, tuple) else []
+
+
+def describe(rep):
+    if rep.get('engine') == 'mc':
+        return _std_describe(rep)
+    from .. import scen
+    scn = rep['scenario']
+    if rep['witness_side'] == 'without timeout':
+        scn = gen.apply_mods(scn, [(s, 'timeout', None)
+                                   for s in timed_scheds(scn)])
+    ex = scen.run_one(scn, rep['witness_choices'], drain=False)
+    return "scenario %s\nwitness execution (twin %s):\n%s" % (
+        rep['scenario_short'], rep['witness_side'], mc.View(ex).pretty())
+
+
+_items_single = items                                        # noqa: F821
+
+STAG = [[('a', 'dur', 1), ('b', 'dur', 2), ('c', 'dur', 1), ('x', 'dur', 1),
+         ('y', 'dur', 2)],
+        [('a', 'dur', 2), ('b', 'dur', 1), ('c', 'dur', 1), ('x', 'dur', 2),
+         ('y', 'dur', 1)],
+        []]
+
+
+def items(tier, seed):
+    yield from _items_single(tier, seed)
+    th = tier == 'thorough'
+    for where, shapes_ in (('top', ['flat23']), ('n', ['nest22', 'nest32']),
+                           ('top', ['nest22'])):
+        yield from spaces.mk(
+            shapes_, force='product',
+            fargs={'parts': [('mods', {'alts': [[(where, 'timeout', t)]
+                                                for t in (2, 3, 4)]}),
+                             ('mods', {'alts': STAG})]},
+            job_open={'dur': [0], 'out': ['raise'], 'forever': [True],
+                      'critical': [True]},
+            top_open={'window': [1, 2]}, nest_open={'window': [1]},
+            k=2 if th else 1, kind='twin')
